@@ -22,6 +22,7 @@ class Back:
         self.EV = 'tbox::event::%sFdEvent' % ('Epoll' if kind == 'epoll' else 'Select')
         self.SD = 'tbox::event::%sFdSharedData' % ('Epoll' if kind == 'epoll' else 'Select')
         self.kernel = {}            # epoll: fd -> mask
+        self.udata = {}             # epoll: fd -> the data.fd registered with it
         self.ready = {}             # fd -> set of 'r' 'w' 'x' 'h'
         self.live = set()
         self.calls = []             # (event index, events argument)
@@ -121,6 +122,10 @@ class Back:
         op, fd, evp = a[1], a[2], a[3]
         r = it.record_of(evp) if evp not in (0, None) else None
         m = r.get('events') if r else None
+        if r is not None:
+            # the kernel keeps the user data of the registration and hands it back with every event: that, not the descriptor, is what the loop gets to see
+            dd = r.get('data')
+            self.udata[fd] = dd.get('fd') if isinstance(dd, dict) else None
         if op == 1:
             if fd in self.kernel:
                 it.fault(f, st, 'EPOLL_CTL_ADD for descriptor %d, which is already registered (EEXIST): the new interest is lost' % fd)
@@ -150,7 +155,7 @@ class Back:
             rev = (m & self.bits(fd)) | (self.bits(fd) & (EPOLLHUP | EPOLLERR))
             if rev and n < min(cap, len(arr)):
                 arr[n]['events'] = rev
-                arr[n]['data']['fd'] = fd
+                arr[n]['data']['fd'] = self.udata.get(fd, 'uninit')
                 n += 1
         return n
 
